@@ -285,6 +285,23 @@ def check_property(pid, tier, seed):
     if not fully_proved:
         coverage["explanation"] = (coverage["explanation"] + " | THIS RUN: " + f"{n_dis}/{n_obl} obligations discharged, "
                                    f"{len(refuted)} refuted, {len(unknown) + len(candidates)} unknown, {len(undecided_fns)} functions outside the subset").strip(" |")
+    if tier == "thorough":
+        # mutation self-test of this property's contracts (tools/selfmut.py on scratch copies): a surviving mutant is a hole in a contract - recorded, not a
+        # verdict about the property
+        try:
+            owner = {"acc_traditional": "C05", "acc_azimuthal": "C11", "drv_psd": "C17"}
+            muts = [m for m in json.load(open(os.path.join(HERE, "tools", "mutants.json"))) if owner.get(m["module"], m["module"]) == pid]
+            if muts:
+                tags = sorted({m["module"] for m in muts})
+                outs = []
+                for tag in tags:
+                    r = subprocess.run([sys.executable, os.path.join(HERE, "tools", "selfmut.py"), "-j", "4", tag], cwd=HERE, capture_output=True, text=True, timeout=7200)
+                    outs += [l for l in r.stdout.splitlines() if l.split(" ")[0] in ("killed", "SURVIVED", "STALE", "NO-TASK")]
+                coverage["mutation_selftest"] = dict(mutants=len(outs), killed=sum(l.startswith("killed") for l in outs),
+                                                     survived=[l[:200] for l in outs if l.startswith("SURVIVED")], stale=[l[:200] for l in outs if l.startswith(("STALE", "NO-TASK"))])
+                lines.append(f"MUTATION-SELFTEST {pid}: {coverage['mutation_selftest']['killed']}/{len(outs)} mutants of the contracted functions fail an obligation")
+        except Exception as ex_:
+            coverage["mutation_selftest"] = dict(error=str(ex_)[:300])
     ev = dict(property_id=pid, tier=tier, seed=seed, level=level, coverage=coverage,
               assumptions=meta.get("assumptions", []), wall_s=round(time.time() - t0, 2), violations=len(violations))
     os.makedirs(os.path.join(HERE, "evidence"), exist_ok=True)
